@@ -2911,6 +2911,13 @@ func (p *Posix) PutObject(ctx context.Context, po s3response.PutObjectInput) (s3
 		versionID = nullVersionId
 	}
 
+	// the new object starts without the attributes of the one it replaces
+	// (attributes that are not stored with the file itself would survive)
+	err = p.meta.DeleteAttributes(*po.Bucket, *po.Key)
+	if err != nil {
+		return s3response.PutObjectOutput{}, fmt.Errorf("remove old attributes: %w", err)
+	}
+
 	for k, v := range po.Metadata {
 		err := p.meta.StoreAttribute(f.File(), *po.Bucket, *po.Key,
 			fmt.Sprintf("%v.%v", metaHdr, k), []byte(v))
